@@ -697,7 +697,14 @@ func (s *Service) rename(
 	}
 	if len(batch.Free) > 0 {
 		keys, names := unzipRenameBatch(batch.Free)
-		if err := s.renameFreeVirtual(ctx, tx, keys, names, allowInternal); err != nil {
+		// Free channels are stored by the bootstrapper. As for create, the change is
+		// executed there: a write forwarded by the key-value store does not pass through
+		// the bootstrapper's table, whose name index would keep the old name.
+		if !s.cfg.HostResolver.HostKey().IsBootstrapper() {
+			if err := s.renameRemote(ctx, node.KeyBootstrapper, keys, names); err != nil {
+				return err
+			}
+		} else if err := s.renameFreeVirtual(ctx, tx, keys, names, allowInternal); err != nil {
 			return err
 		}
 	}
